@@ -33,12 +33,12 @@ void PTN(D2Ev)(PT *self)
 __CPROVER_requires(FRESH(pt_dtor, self, sizeof(PT)))
 __CPROVER_assigns()
 __CPROVER_ensures(1);
-/* size(): number of bindings; the empty shared_ptr is the empty map */
+/* size(): number of bindings; the empty shared_ptr is the empty map, and the only tree without bindings */
 uint64_t PTK(4sizeEv)(PT *self)
 __CPROVER_requires(FRESH(pt_size, self, sizeof(PT)))
 __CPROVER_assigns()
 __CPROVER_ensures(__CPROVER_return_value == M_size(ROOT(*self)))
-__CPROVER_ensures(ROOT(*self) != 0 || __CPROVER_return_value == 0);
+__CPROVER_ensures((ROOT(*self) == 0) == (__CPROVER_return_value == 0));   /* a non-null tree is a leaf (1) or a node (>= 2) */
 /* leq(t, po): the tree order for the partial-order class of po.  Two facts about tree::compare are assumed on
  * top: a tree is below itself (compare returns true on identical roots), and with default_is_top (domain_po)
  * every tree is below the empty tree. */
@@ -264,7 +264,8 @@ __CPROVER_ensures(__CPROVER_return_value == 0 || VID(__CPROVER_return_value) == 
 void h_find(void){ IN(SD, a); IN(K, k); GV *r = SDK(4findERKS1_)(&a, &k); SATGUARD(r != 0); SATGUARD(r == 0); REACH; }
 
 /* join(k, v) (weak update): nothing on bottom; v bottom => bottom; v top => k unbound; k unbound (= top) stays
- * unbound; otherwise k bound to old | v; every other key unchanged */
+ * unbound; otherwise k bound to old | v -- unless that is top, then k is unbound (top is never stored: property C19,
+ * 'iteration lists exactly the non-top bindings'); every other key unchanged */
 //@check id=join_kv fn=_ZN4ikos15separate_domainI1K2GVSt8equal_toIS2_EE4joinERKS1_RKS2_ props=C19 replace=_ZN4ikos13patricia_treeI1K2GVSt8equal_toIS2_EE6removeERKS1_,_ZN4ikos13patricia_treeI1K2GVSt8equal_toIS2_EE6insertERKS1_RKS2_,_ZN4ikos13patricia_treeI1K2GVSt8equal_toIS2_EEaSEOS5_,_ZN4ikos13patricia_treeI1K2GVSt8equal_toIS2_EED2Ev,_ZNK4ikos13patricia_treeI1K2GVSt8equal_toIS2_EE4findERKS1_
 void SDN(4joinERKS1_RKS2_)(SD *self, K *k, GV *v)
 __CPROVER_requires(FRESH(join_kv, self, sizeof(SD)) && FRESH(join_kv, k, sizeof(K)) && FRESH(join_kv, v, sizeof(GV)) && sd_ok(self))
@@ -275,7 +276,9 @@ __CPROVER_ensures(!(!OLDBOT(self) && GV_ISBOT(VID(v))) || sd_same(self, 1, (void
 __CPROVER_ensures(!(!OLDBOT(self) && !GV_ISBOT(VID(v))) || (!sd_bot(self) && (g_k == KIDX(k) || SAME_AT(self, OLDROOT(self), g_k))))
 __CPROVER_ensures(!(!OLDBOT(self) && !GV_ISBOT(VID(v)) && (GV_ISTOP(VID(v)) || !M_has(OLDROOT(self), KIDX(k)))) || !M_has(ROOT(self->f1), KIDX(k)))
 __CPROVER_ensures(!(!OLDBOT(self) && !GV_ISBOT(VID(v)) && !GV_ISTOP(VID(v)) && M_has(OLDROOT(self), KIDX(k))) ||
-                  (M_has(ROOT(self->f1), KIDX(k)) && M_val(ROOT(self->f1), KIDX(k)) == GV_JOIN(M_val(OLDROOT(self), KIDX(k)), VID(v))));
+                  (GV_ISTOP(GV_JOIN(M_val(OLDROOT(self), KIDX(k)), VID(v)))
+                     ? !M_has(ROOT(self->f1), KIDX(k))      /* C19: top is never stored (the code first stored it: fixed in /repo, see known_findings.json) */
+                     : (M_has(ROOT(self->f1), KIDX(k)) && M_val(ROOT(self->f1), KIDX(k)) == GV_JOIN(M_val(OLDROOT(self), KIDX(k)), VID(v)))));
 void h_join_kv(void){ IN(SD, a); IN(K, k); IN(GV, v); GHOSTG(uint64_t, g_k); SDN(4joinERKS1_RKS2_)(&a, &k, &v);
   SATGUARD(wit_a.f0); SATGUARD(!wit_a.f0 && GV_ISBOT(v.f0)); SATGUARD(!wit_a.f0 && !GV_ISBOT(v.f0) && GV_ISTOP(v.f0));
   SATGUARD(!wit_a.f0 && !GV_ISBOT(v.f0) && !GV_ISTOP(v.f0) && M_has(ROOT(wit_a.f1), k.f1)); SATGUARD(!wit_a.f0 && !GV_ISBOT(v.f0) && !GV_ISTOP(v.f0) && !M_has(ROOT(wit_a.f1), k.f1)); REACH; }
@@ -356,8 +359,9 @@ void h_po_leq(void){ IN(GV, x); IN(GV, y); OP_po o; SDN(9domain_po3leqERKS2_S8_)
 //@check id=po_default_top fn=_ZN4ikos15separate_domainI1K2GVSt8equal_toIS2_EE9domain_po14default_is_topEv props=C19,C04
 FLAGFN(po_default_top, SDN(9domain_po14default_is_topEv), OP_po, 1)
 
-/* ---- rename(from, to), BOUNDED and THOROUGH tier only (about 200 s per run on cvc5; the SAT back ends spend >2 min
- * in cbmc's post-processing: 7.4M variables for 82 VCCs): vectors of at most ONE key (loop unwound twice; the general case iterates the
+/* ---- rename(from, to), BOUNDED (quick tier since the unit runs with mem2reg and every dropped tree function is replaced by
+ * its contract: 10 - 30 s per run on cvc5; the SAT back ends spend minutes in cbmc's post-processing of the uninterpreted
+ * observers): vectors of at most ONE key (loop unwound twice; the general case iterates the
  * vectors and needs the finite-map facts at more than one ghost key).  Sanity-check flag off (its default).
  * nothing on bottom / top; equal keys or an unbound source: nothing; otherwise the source is unbound afterwards,
  * the target carries the source's value unless that value is top, every other key unchanged. */
@@ -371,7 +375,7 @@ typedef struct S_class_std__vector_3 VEC;            /* std::vector<K>: f0.f0.f0
 #define VLEN(v) ((uint64_t)(VEND(v) - VBEG(v)))
 #define REN_K(from) KIDX(&VBEG(from)[0])
 #define REN_ACTIVE(self, from, to) (!OLDBOT(self) && M_size(OLDROOT(self)) != 0 && VLEN(from) == 1 && REN_K(from) != REN_K(to) && M_has(OLDROOT(self), REN_K(from)))
-//@check id=rename1 fn=_ZN4ikos15separate_domainI1K2GVSt8equal_toIS2_EE6renameERKSt6vectorIS1_SaIS1_EESA_ props=C19 tier=thorough backends=cvc5 timeout=900 cost=9 unwind=2 vary=RN:0-1 replace=_ZNK4ikos13patricia_treeI1K2GVSt8equal_toIS2_EE4sizeEv,_ZNK4ikos13patricia_treeI1K2GVSt8equal_toIS2_EE6lookupERKS1_,_ZN4ikos13patricia_treeI1K2GVSt8equal_toIS2_EE6insertERKS1_RKS2_,_ZN4ikos13patricia_treeI1K2GVSt8equal_toIS2_EE6removeERKS1_
+//@check id=rename1 fn=_ZN4ikos15separate_domainI1K2GVSt8equal_toIS2_EE6renameERKSt6vectorIS1_SaIS1_EESA_ props=C19 bounded="|from|=|to|<=1 (one run per length)" backends=cvc5 timeout=300 timeout_thorough=900 cost=5 unwind=2 vary=RN:0-1 replace=_ZNK4ikos13patricia_treeI1K2GVSt8equal_toIS2_EE4sizeEv,_ZNK4ikos13patricia_treeI1K2GVSt8equal_toIS2_EE6lookupERKS1_,_ZN4ikos13patricia_treeI1K2GVSt8equal_toIS2_EE6insertERKS1_RKS2_,_ZN4ikos13patricia_treeI1K2GVSt8equal_toIS2_EE6removeERKS1_
 void SDN(6renameERKSt6vectorIS1_SaIS1_EESA_)(SD *self, VEC *from, VEC *to)
 __CPROVER_requires(FRESH(rename1, self, sizeof(SD)) && FRESH(rename1, from, sizeof(VEC)) && FRESH(rename1, to, sizeof(VEC)) && sd_ok(self))
 __CPROVER_requires(VLEN(from) == VLEN(to) && VLEN(from) <= 1 && _ZN4crab19CrabSanityCheckFlagE == 0)
@@ -382,7 +386,13 @@ __CPROVER_ensures(!REN_ACTIVE(self, from, to) || !M_has(ROOT(self->f1), REN_K(fr
 __CPROVER_ensures(!REN_ACTIVE(self, from, to) || g_k == REN_K(from) || g_k == REN_K(to) || SAME_AT(self, OLDROOT(self), g_k))
 __CPROVER_ensures(!(REN_ACTIVE(self, from, to) && g_k == REN_K(to)) ||
                   (GV_ISTOP(M_val(OLDROOT(self), REN_K(from))) ? SAME_AT(self, OLDROOT(self), g_k)
-                   : (M_has(ROOT(self->f1), g_k) && M_val(ROOT(self->f1), g_k) == M_val(OLDROOT(self), REN_K(from)))));
+                   : (M_has(ROOT(self->f1), g_k) && M_val(ROOT(self->f1), g_k) == M_val(OLDROOT(self), REN_K(from)))))
+/* the same in the property's terms (total map with default top), at the ghost key: when the target is fresh (unbound, what
+ * the real code's sanity check demands) the target afterwards reads what the source read before - top included: renaming
+ * a key that is top leaves the target top - and the source (if it is another key) reads top */
+__CPROVER_ensures(!(VLEN(from) == 1 && !OLDBOT(self) && g_k == REN_K(to) && !M_has(OLDROOT(self), REN_K(to)) && SD_INV_AT(OLDROOT(self), REN_K(from))) ||
+                  AT_ROOT(ROOT(self->f1), g_k) == AT_ROOT(OLDROOT(self), REN_K(from)))
+__CPROVER_ensures(!(VLEN(from) == 1 && !OLDBOT(self) && REN_K(from) != REN_K(to)) || !M_has(ROOT(self->f1), REN_K(from)));
 void h_rename1(void){
   IN(SD, a); K fk0, tk0; K *fk = &fk0, *tk = &tk0; GHOSTG(uint64_t, g_k);
   static uint64_t wit_from, wit_to; wit_from = fk0.f1; wit_to = tk0.f1;
@@ -398,4 +408,5 @@ void h_rename1(void){
 #endif
   REACH; }
 
+#include "contracts_iter.c"
 #include "contracts_set.c"
